@@ -262,6 +262,16 @@ def check_cfg(ctx, fx, cfg):
                 for v in ctx.violations[before:]:
                     v["rule"] = "R01.10"
                     v["key"] = "%s/R01.10/%s" % (ctx.prop, v["instance"])
+    # R01.11 the queue the builder created is the one the environment runs on: terminals hand their Channel over unmodified
+    if cfg != "bare":
+        n_t = 0
+        for g, bi_, t_ in graph.all_calls(fx, lambda x: (x.get("callee") or "").endswith("Environment::<A, R>::from_channel")):
+            gb = ctx.body(fx, g)
+            rs = roots(gb, t_["args"][0])
+            n_t += 1
+            okc = bool(rs) and all(r.kind == "arg" or r.kind.startswith("call:channel::Channel::<A>::") for r in rs)
+            ctx.require(okc, "R01.11", "channel-handed-over:%s@%s" % (g["def"], cfg), "the channel the loop runs on is not the one created for this actor (roots %s)" % sorted(map(str, rs)), fn=g["def"], site=t_["l"])
+        ctx.floor("R01.11", "callers of Environment::from_channel (%s)" % cfg, n_t, 6)
     # R01.6 types
     pa = fx.adts.get(loops.PAYLOAD)
     if ctx.require(pa is not None, "R01.6", "payload-type@" + cfg, "environment::payload::Payload not found"):
